@@ -957,13 +957,21 @@ class BitVec:
             if x[1] == 'Not':
                 return [b_not(p) for p in a]
             t = b_top(a)
-            return [t if t else 0] * len(a)
+            if t is None:
+                # every operand bit is known: compute (an unknown operation on known bits is not "zero")
+                if x[1] == 'Neg' and ty_of(x) in INT_BITS:
+                    v_ = wrap(-sum(bit << i for i, bit in enumerate(a)), ty_of(x)) & ((1 << len(a)) - 1)
+                    return [(v_ >> i) & 1 for i in range(len(a))]
+                raise Uncertified("bit-vector of unary %s on known bits" % x[1])
+            return [t] * len(a)
         if k == 'cast':
             a = self.bv(x[1])
             w = self.width(x[2])
             if w is None:
                 t = b_top(a)
-                return [t if t else 0]
+                if t is None:
+                    raise Uncertified("bit-vector of a cast to %s" % (x[2],))
+                return [t]
             frm = ty_of(x[1])
             if len(a) >= w:
                 return a[:w]
@@ -994,5 +1002,14 @@ class BitVec:
                 v = sum(bit << i for i, bit in enumerate(bb))
                 r = conc_intfn(x[1], v, ty_of(ch))
                 return [(r >> i) & 1 for i in range(w)]
-            return [t if t else 0] * w
+            if t is None:
+                if k == 'idx' and len(chbits) == 1:
+                    ix_ = sum(bit << i for i, bit in enumerate(chbits[0][1]))
+                    tb_ = self.pdb.table(x[1])
+                    if 0 <= ix_ < len(tb_) and isinstance(tb_[ix_], int):
+                        return [(tb_[ix_] >> i) & 1 for i in range(w)]
+                # an uninterpreted call (or a read that cannot be resolved) with no symbolic input is an unknown
+                # value, not zero
+                raise Uncertified("bit-vector of an uninterpreted %s without symbolic inputs" % k)
+            return [t] * w
         raise Uncertified("bit-vector of node %s" % k)
